@@ -21,9 +21,7 @@ theorem records_complete_on_return (P : Phys S R D Rec E) (soil : Soil D) (dt M 
     (hv : Valid ⟨dt, M, Dy, days, rows.length⟩)
     (h : simulate P soil dt M Dy days rows s0 = .ok (s', recs)) : recs.length = 24 * days := by
   obtain ⟨tr, htr, _, hlen, _⟩ := records_complete ⟨dt, M, Dy, days, rows.length⟩ hv
-  unfold simulate at h
-  rw [htr] at h
-  simp only [] at h
+  rw [simulate_of_driver_ok P soil dt M Dy days rows s0 tr htr] at h
   have := runSteps_ok_length P (deepAt soil) rows tr s0 s' [] recs h
   simpa [hlen] using this
 
@@ -32,7 +30,7 @@ theorem records_complete_on_return (P : Phys S R D Rec E) (soil : Soil D) (dt M 
 theorem timestep_refused (P : Phys S R D Rec E) (soil : Soil D) (dt M Dy days : Nat)
     (rows : List R) (s0 : S) (hbad : ¬ (0 < dt ∧ dt ∣ 3600)) :
     ∃ e, simulate P soil dt M Dy days rows s0 = .error ([], .drv e) := by
-  unfold simulate driver Clock.create
+  unfold simulate Clock.create
   by_cases h0 : dt = 0
   · exact ⟨.zerodiv, by simp [h0]⟩
   · by_cases h : 3600 % dt = 0
@@ -59,10 +57,21 @@ theorem bounds_on_return (P : Phys S R D Rec E) (soil : Soil D) (dt M Dy days : 
     (hrec : ∀ s t r, good s → okRec (P.record s t r)) :
     ∀ x ∈ recordsOf (simulate P soil dt M Dy days rows s0), okRec x := by
   unfold simulate
-  cases driver { dt := dt, M := M, D := Dy, days := days, rows := rows.length } with
-  | error e => intro x hx; simp [recordsOf] at hx
-  | ok tr =>
-    exact runSteps_records_good P (deepAt soil) rows good okRec hstep hrec tr s0 [] (by simp)
+  cases Clock.create dt M Dy with
+  | error e => cases e <;> (intro x hx; simp [recordsOf] at hx)
+  | ok c0 =>
+    simp only []
+    have hg := runSteps_records_good P (deepAt soil) rows good okRec hstep hrec
+      (traceLoop dt (24 * days) rows.length (nt dt days - 1) 1 c0 0).1 s0 [] (by simp)
+    cases hr : runSteps P (deepAt soil) rows
+        (traceLoop dt (24 * days) rows.length (nt dt days - 1) 1 c0 0).1 s0 [] with
+    | error x => rw [hr] at hg; simpa [recordsOf] using hg
+    | ok p =>
+      rw [hr] at hg
+      obtain ⟨s, recs⟩ := p
+      cases (traceLoop dt (24 * days) rows.length (nt dt days - 1) 1 c0 0).2 with
+      | none => simpa [recordsOf] using hg
+      | some e => simpa [recordsOf] using hg
 
 /-! ### Zero internal load (T4) -/
 
